@@ -55,6 +55,8 @@ def main():
         strict = os.environ.get('AGENT_PROMPT_STRICT', '1') == '1'  # strict: only the property text and the worktree (nothing derived from /verif)
         avoid = '' if strict else 'These changes were already proposed for this property by others; do NOT repeat them or close variants of them:\n' + '\n'.join(' - ' + c for c in by.get(p, [])) + '\n\n'
         s = T.format(wt=wt, out=out, prop=pj, avoid=avoid, hint='' if strict else HINTS[p] + '\n', emphasis=os.environ.get('AGENT_PROMPT_EMPHASIS', ''))
+        if os.environ.get('AGENT_PROMPT_ONE') == '1':
+            s = s.replace('produce TWO different, independent source changes ("A" and "B")', 'produce ONE source change ("A")').replace('The two changes must sit in different code areas and fail for different reasons.\n', '').replace('DELIVERABLES, for X in A, B, under', 'DELIVERABLES, for X = A, under').replace('then `git checkout -- .` in the worktree and do B the same way. ', 'then `git checkout -- .` in the worktree. ').replace('give a five-line summary per change', 'give a five-line summary of the change')
         open(os.path.join(V, 'work', 'agents', 'r%s_%s.txt' % (rnd, p)), 'w').write(s)
         print('wrote', p)
 main()
